@@ -55,6 +55,7 @@ USE_RET struct mux_input *mux_get_input(struct mux *mux,
 USE_RET int mux_register(struct mux *mux,
 		struct bay *bay);
 
+USE_RET int mux_reselect(struct mux *mux);
 void mux_set_default(struct mux *mux, struct value def);
 
 #endif /* MUX_H */
